@@ -137,6 +137,27 @@ func (w *World) verifyFunction(fn *ssa.Function, ct *Contract, props []string) (
 		o := c.obligeNamed(nm, "post", w.Fset.Position(fn.Pos()), "postcondition: "+en.Text, exitGuard, g)
 		o.ModelVars = mvars
 	}
+	// frame: a contract that declares "pure" or "modifies nothing" must leave every pre-existing object unchanged
+	if ct.HasMod && len(ct.Modifies) == 0 {
+		if exitState.base != ex.entry.base {
+			c.obligeNamed("frame.heap", "frame", w.Fset.Position(fn.Pos()), "declared frame (modifies nothing): a callee may modify the whole heap", exitGuard, tFalse)
+		}
+		for _, k := range sortedKeys(exitState.heaps) {
+			hx := exitState.heaps[k]
+			h0 := c.heapGet(ex.entry, k)
+			if hx.S == h0.S {
+				continue
+			}
+			info := c.heapSorts[k]
+			var goal Term
+			if info.sort == info.elem {
+				goal = Eq(hx, h0)
+			} else {
+				goal = T(SBool, "(forall ((r Int)) (=> (< r alloc0) (= (select %s r) (select %s r))))", hx.S, h0.S)
+			}
+			c.obligeNamed("frame."+sanitizeSym(k), "frame", w.Fset.Position(fn.Pos()), "declared frame (modifies nothing): pre-existing "+k+" unchanged", exitGuard, goal)
+		}
+	}
 	for _, o := range c.obls {
 		if o.ModelVars == nil {
 			o.ModelVars = mvars
